@@ -56,6 +56,12 @@ func (*PZ1) RIm()  {}
 func (*PZ2) RIm()  {}
 func (*PZ2) Mark() {}
 
+// Kind() string: for func points with returns=... (types 4 7 -> "A", 5 14 -> "B")
+func (*PD) Kind() string  { return "A" }
+func (*PM) Kind() string  { return "A" }
+func (*PE) Kind() string  { return "B" }
+func (*PDM) Kind() string { return "B" }
+
 // Tick(): a second method name for func points (types 4 8 12 13 16)
 func (*PD) Tick()  {}
 func (*PQM) Tick() {}
@@ -175,7 +181,8 @@ type RPoint struct {
 	Q      []string `json:"q"`
 	HasQ   bool     `json:"hasQ"`
 	Req    bool     `json:"req"`
-	Fn     string   `json:"fn"` // func points: the requested method (Mark | Tick)
+	Fn     string   `json:"fn"`  // func points: the requested method (Mark | Tick | Kind)
+	Ret    []string `json:"ret"` // func points: values of the returns argument (none = no argument)
 }
 type RScenario struct {
 	ID    string   `json:"id"`
@@ -294,14 +301,20 @@ func runResolve(sc *RScenario) []map[string]any {
 		if sc.Pts[i].Fn == "" {
 			sc.Pts[i].Fn = "Mark"
 		}
+		if sc.Pts[i].Ret == nil {
+			sc.Pts[i].Ret = []string{}
+		}
 	}
 	for i, pt := range sc.Pts {
 		f := fmt.Sprintf("F%d", i+1) + suffix[pt.Kind]
 		tag, tv := "wire", ""
 		if pt.Tag == "func" {
 			tag, tv = "func", "Mark"
-			if pt.Fn == "Tick" {
-				tv = "Tick"
+			if pt.Fn == "Tick" || pt.Fn == "Kind" {
+				tv = pt.Fn
+			}
+			if len(pt.Ret) > 0 {
+				tv += ",returns=" + strings.Join(pt.Ret, " ")
 			}
 		} else if pt.ByName == -1 {
 			tv = "absent"
